@@ -3,11 +3,11 @@ META = dict(
     rule=('H: register/unregister histories over a pool of six callbacks (three with one signature, three with distinct signatures: int/short->long, int*+long->long, '
           'VS*->opaque VS*) on a 4-slot mbox table, explored to the fixpoint of the slot assignment, a second sandbox holding other functions in the same slot '
           'numbers; in every new state every registered callback is called from guest code with boundary arguments and results (incl. results that do not fit '
-          'the guest type -> abort). T: all call trees of depth <= 3 and width <= 2 over two sandboxes (A and B hold different functions in equal slot numbers); '
+          'the guest type -> abort). T: all call trees of depth <= 3 (thorough: 5; from depth 3 on the second child of a node is none or equal to the first) and width <= 2 over two sandboxes (A and B hold different functions in equal slot numbers); '
           'the application-side log must equal the prescribed sequence of (function, sandbox reference, argument), guest code must see the encoded results in '
           'the right executing instance. Configurations: mbox-lp32, mbox-wide, noop and dylib with library TLS and embedder TLS (at 63/64 table occupancy, with '
           're-registration churn). states = slot assignments, transitions = guest calls checked.'),
-    assumptions=['calling a released entry point is a deliberate null call in the bundled backends and is not executed', 'depth <= 3, width <= 2'],
+    assumptions=['calling a released entry point is a deliberate null call in the bundled backends and is not executed', 'depth <= 3 (5 thorough), width <= 2'],
 )
 
 
